@@ -82,7 +82,14 @@ func expect(d RpDelivered) (answered bool, rid uint16, body []byte, bodyKnown bo
 }
 
 // ---- the direct oracle: the property on what the server did ----
+// conversations that ran into a time-out (a reply that never came): after a few of them the rest
+// of the run is skipped - every further conversation would wait 4 s per barrier
+var timeouts int
+
 func direct(c *Ctx, mode, req string, items []RpItem, r *RpResult) {
+	if r.Timeout != "" {
+		timeouts++
+	}
 	viol := func(sig, what, obs, want string) {
 		c.Violate(Violation{Signature: "C06/" + sig, What: what, Input: req, Observed: Trunc(obs, 600), Required: Trunc(want, 600)})
 	}
@@ -491,6 +498,10 @@ func c06(c *Ctx) {
 	quick := c.Quick()
 
 	run := func(mode string, toks []string, flush int) {
+		if timeouts >= 3 {
+			c.Count("skipped after repeated time-outs")
+			return
+		}
 		req := "conv " + mode + " " + strings.Join(toks, " ")
 		items, err := RpParseItems(toks)
 		if err != nil {
@@ -590,6 +601,10 @@ func c06(c *Ctx) {
 		res   *RpResult
 	}
 	for done := 0; done < nconv; {
+		if timeouts >= 3 {
+			c.Count("skipped after repeated time-outs")
+			break
+		}
 		var batch []*job
 		for k := 0; k < 8 && done < nconv; k++ {
 			n := 1 + g.rng.Intn(40)
